@@ -17,6 +17,7 @@ import Driver.LruTrace
 import Driver.PoolTrace
 import Driver.RedisTrace
 import Driver.LruOver
+import Driver.RedisWait
 
 def main (args : List String) : IO UInt32 := do
   match args with
@@ -38,4 +39,5 @@ def main (args : List String) : IO UInt32 := do
   | ["pooltrace"] => Drv.run DrvPoolTrace.comp
   | ["redistrace"] => Drv.run DrvRedisTrace.comp
   | ["lruover"] => Drv.run DrvLruOver.comp
+  | ["rediswait"] => Drv.run DrvRedisWait.comp
   | _ => IO.eprintln "usage: driver <component>"; return 2
